@@ -236,6 +236,11 @@ MIRSYM("distance_kernels_structure", ["C11"],
        "n in 1..=40 and around every multiple of 16/32 up to 300 (thorough: all n in 1..=300); element values symbolic; float + as real addition, - and * uninterpreted (multiplication commutative); CPU features symbolic",
        _lazy("e2_simd"), site="spaces::simple / simple_sse / simple_avx")
 
+MIRSYM("upgrade_steps", ["C17"],
+       "cosine_from_0_4_to_0_5 maps a v0.4 database (old key kinds, old kinds inside split nodes, pending-updates bitmap) to exactly its current-layout image, key for key (items byte for byte, split children re-tagged, metric renamed, one updated mark per pending id, junk cleared); an undefined key kind is rejected with CannotDecodeKeyMode; from_0_5_to_0_6 scans 0..=65535 and writes a version record exactly for the indexes that have metadata",
+       "source: 2 indexes, items, 2 splits with item/tree children on either side, a bucket, metadata, pending-updates set symbolic with <= 2 ids over a 16-id universe; destination pre-filled with junk; 0.5->0.6: one iteration for an arbitrary u16 index",
+       _lazy("e2_upgrade"), site="upgrade::cosine_from_0_4_to_0_5 / from_0_5_to_0_6")
+
 PROPS = {}
 
 KANI_NOTE = ("Trusted: Kani/CBMC and rustc MIR semantics; the environment models in /verif/models (heed store, "
@@ -410,6 +415,16 @@ P("C11", "Reported distances equal the metric's definition for every vector shap
   bounds={"length": "1..=300", "formula lemmas": "dim 2"},
   outside_claim=["numeric error bounds", "NEON", "byte offsets/alignment", "Euclidean symmetry/self-distance (float products)"],
   assumptions=["IEEE multiplication commutes"])
+P("C17", "Upgrading an old database preserves its whole content",
+  "symbolic execution of the rustc MIR of both upgrade functions (z3) over a two-database key-value world with a constant-shape v0.4 source and symbolic pending-update sets",
+  "Bounded symbolic execution: the destination equals the current-layout image of the source, key for key, for every pending-updates set within the bound; values are abstract (items are opaque byte strings, tree nodes structured records), so 'byte for byte' is decided at the level of which value object lands under which key, with the codecs themselves covered by C16.",
+  level_note="Trusted: rustc MIR, z3, the key-value world (iteration in key order, LazyDecode as typed access to abstract values), C16's codec lemmas for the byte level. The upgraded database opening / passing C01 afterwards is outside the claim. from_0_5_to_0_6 is checked for one arbitrary index with the loop bounds read off the MIR, not by running 65536 iterations.",
+  stubs_and_models=["two-database key-value world (lib/e2_upgrade.py)", "fmt machinery as opaque values"],
+  functions_encoded=["upgrade::cosine_from_0_4_to_0_5", "OldNodeMode::try_from", "upgrade::from_0_5_to_0_6", "Key::metadata", "Key::version"],
+  bounds={"source": "constant shape, 9 entries", "pending ids": "<= 2 of 16"},
+  outside_claim=["opening / rebuilding the upgraded database", "byte-level re-encoding (C16)", "databases beyond the shape"],
+  assumptions=[])
+claim("C17")
 claim("C11")
 claim("C20")
 claim("C18")
